@@ -27,6 +27,8 @@ oracle clause `c17_accounting` checks the accounting hypotheses of the theorem o
 import NtpVerif.Proofs.ServerFit
 import NtpVerif.Model.ServerReq
 import NtpVerif.Proofs.ServerParse
+import NtpVerif.Proofs.ServerWire
+import NtpVerif.Props.C22
 
 namespace NtpVerif.C17
 open NtpVerif.Server NtpVerif.RespSize
@@ -391,6 +393,60 @@ theorem reqOf_draft_facts (dec : Wire.Dec) (ks : Wire.KeySet) (data : List UInt8
   | panic => exact ⟨fun _ h5 => by simp [reqNone] at h5, fun h5 => by simp [reqNone] at h5⟩
   | fuel => exact ⟨fun _ h5 => by simp [reqNone] at h5, fun h5 => by simp [reqNone] at h5⟩
 
+/-- All of `ReqFacts` is a theorem about the parser model, except that a datagram has at most 65535 octets
+    (a fact about UDP, not about the parser). -/
+theorem reqFacts_reqOf (dec : Wire.Dec) (ks : Wire.KeySet) (data : List UInt8) (fv encw : Nat)
+    (hudp : data.length ≤ 65535) : ReqFacts (reqOf dec ks data fv encw) := by
+  obtain ⟨hok, hdf⟩ := reqOf_draft_facts dec ks data fv encw
+  have hpf := C22.parserFacts_reqOf dec ks data fv encw
+  have hmem : ∀ (p : Wire.Packet) (b : List UInt8),
+      Field.uid b ∈ p.ef.untrusted.map fieldOf ++ p.ef.authenticated.map fieldOf →
+      Wire.EF.uniqueId b ∈ p.ef.untrusted ++ p.ef.authenticated := by
+    intro p b hb
+    rw [← List.map_append, List.mem_map] at hb
+    obtain ⟨f, hf, hfb⟩ := hb
+    cases f <;> simp [fieldOf] at hfb
+    subst hfb
+    exact hf
+  refine ⟨?_, ?_, hpf.2, hok, hdf⟩
+  · intro b hb
+    unfold reqOf at hb
+    cases hp : Wire.parse dec (.keyset ks) data with
+    | ok p cookie =>
+      have hr : Wire.parseR dec (.keyset ks) data = .ok (p, cookie, true) := by
+        unfold Wire.parse at hp
+        split at hp <;> first | (cases hp; done) | (cases hp; assumption)
+      simp only [hp, reqOfPacket] at hb
+      exact ServerParse.parseR_uid hr b (hmem p b hb)
+    | decryptErr p =>
+      have hr : ∃ c, Wire.parseR dec (.keyset ks) data = .ok (p, c, false) := by
+        unfold Wire.parse at hp
+        split at hp <;> first | (cases hp; done) | (cases hp; exact ⟨_, by assumption⟩)
+      obtain ⟨c, hr⟩ := hr
+      simp only [hp, reqOfPacket] at hb
+      exact ServerParse.parseR_uid hr b (hmem p b hb)
+    | err e => simp [hp, reqNone] at hb
+    | panic => simp [hp, reqNone] at hb
+    | fuel => simp [hp, reqNone] at hb
+  · unfold reqOf
+    cases Wire.parse dec (.keyset ks) data <;> simpa [reqOfPacket, reqNone] using hudp
+
+/-- **Byte-level form of `fits_unless_known_cause`.**  For every datagram of at most 65535 octets, decryption
+    oracle, key set, configuration and synchronisation state: if the policy decides to answer the request derived
+    from the bytes, the answer fits a buffer as long as the datagram — unless one of the three known causes
+    applies (`stable` fails: F-C17a; `nonceLong` fails: F-C17b/c) — given the size accounting of the request
+    (`accounted`, `nonceLong` relate the harness-measured `encw` to the datagram; oracle-checked). -/
+theorem fits_unless_known_cause_wire (cfg : Config) (info : Info) (env : Env) (dec : Wire.Dec) (ks : Wire.KeySet)
+    (data : List UInt8) (fv encw : Nat) (hudp : data.length ≤ 65535) {a reason v nts r}
+    (h : handleInner cfg info env (reqOf dec ks data fv encw) = .answer a reason v nts r)
+    (hacc : 48 + wireSum ((reqOf dec ks data fv encw).untrusted ++ (reqOf dec ks data fv encw).auth)
+              + (reqOf dec ks data fv encw).encw ≤ (reqOf dec ks data fv encw).len)
+    (hstable : untrustedSize (evOf r.hdr.version) r.untrusted ≤ ownSum r.untrusted ∧ authSize r.auth ≤ ownSum r.auth)
+    (hnonce : (reqOf dec ks data fv encw).cookie.isSome = true →
+              encOverhead + wireSum (reqOf dec ks data fv encw).enc ≤ (reqOf dec ks data fv encw).encw) :
+    serialize r (reqOf dec ks data fv encw).len ≠ .err :=
+  fits_unless_known_cause cfg info env _ h ⟨hacc, hstable, hnonce, reqFacts_reqOf dec ks data fv encw hudp⟩
+
 /-- An answer that was decided on is either sent, or its loss is recorded as exactly one
     "internal error / ignore" entry (or the serialiser panicked, excluded by C22 under its assumptions). -/
 theorem answer_or_internal (cfg : Config) (info : Info) (env : Env) (req : Req) {a reason v nts r}
@@ -446,4 +502,6 @@ end NtpVerif.C17
 #print axioms NtpVerif.C17.plain_fits_partial
 #print axioms NtpVerif.C17.fits_unless_known_cause
 #print axioms NtpVerif.C17.reqOf_draft_facts
+#print axioms NtpVerif.C17.reqFacts_reqOf
+#print axioms NtpVerif.C17.fits_unless_known_cause_wire
 #print axioms NtpVerif.C17.answer_or_internal
